@@ -184,3 +184,22 @@ def step_on_every_iteration(g, loop):
     steps = [w[0]['id'] for w in loop['writes']]
     # find the loop head (join) that the test belongs to: any path body -> cn without steps is a skip
     return cn['id'] not in g.reach_from(body, cut_nodes=steps)
+
+
+def sole_exit(g, loop):
+    """the loop controlled by loop['cond_node'] is left only through that test (its false edge): no second condition in the header,
+    no break, no return inside — so when the header evaluation says it visits a range, every index of the range is really visited"""
+    cn = loop['cond_node']
+    body = [v for v, l in cn['succ'] if l is True]
+    if not body:
+        return False
+    inside = g.reach_from(body[0], cut_nodes=[cn['id']]) | {cn['id']}
+    # nodes from which the test is reachable again are in the loop; an edge from such a node to a node from which it is not is an exit
+    back = {i for i in inside if cn['id'] in g.reach_from(i)} | {cn['id']}
+    for i in back:
+        for (v, l) in g.nodes[i]['succ']:
+            if v not in back and i != cn['id']:
+                if g.nodes[v]['kind'] == 'term':
+                    continue        # raising is not "giving up early"
+                return False
+    return True
